@@ -10,8 +10,6 @@ import (
 	"github.com/tigerwill90/fox"
 )
 
-
-
 // selftest demonstrates that the machinery is bound to the code and that the model's properties can fail:
 //   - a TLC vector replayed against a deliberately falsified prescription is reported;
 //   - observations recorded from the real code are accepted, the same observations with one field altered are
@@ -66,6 +64,19 @@ func selftest(seed int64) int {
 		obs[1]["out"] = chars("/a/b/x")
 		rej = r.runObs("Obs_Clean", obs, 2*time.Minute)
 		report("Obs_Clean rejects an altered observation", len(rej) == 1, fmt.Sprint(rej))
+		// the node-level walk of FoxLookup agrees with FoxMatch; with any one repair switched off TLC finds the defect
+		lg := newLookupGen(r, rand.New(rand.NewSource(1)), 0, 3, 4)
+		res := r.runTLC(tlcOpts{Module: "MC_Lookup", Gen: map[string]string{"Gen_Lookup.tla": lg.tla()}, Timeout: 10 * time.Minute})
+		report("MC_Lookup: the modelled walk agrees with the reference matcher", res.ExitCode == 0 && !res.Error, fmt.Sprintf("%d tables", res.Distinct/2))
+		func() {
+			defer func() {
+				if p := recover(); p != nil {
+					report("MC_Lookup: every repair is necessary in the model", false, fmt.Sprint(p))
+				}
+			}()
+			lookupNegativeRuns(r, lg)
+			report("MC_Lookup: every repair is necessary in the model", r.getCov("lookup_model_defects_reproduced") == int64(len(lookupFixes)), "")
+		}()
 		selftestHooks(r, report)
 	}()
 	if failed > 0 {
@@ -96,7 +107,7 @@ func setupGenStubs() map[string]string {
 		"Gen_ObsServe.tla":   "---- MODULE Gen_ObsServe ----\nGenTable == << [m |-> \"GET\", pat |-> <<\"/\">>, opt |-> \"none\"] >>\nGenCfg == [noMethod |-> FALSE, autoOptions |-> FALSE]\nGenHost == <<\"a\">>\n====\n",
 		"Gen_ObsMatch.tla":   "---- MODULE Gen_ObsMatch ----\nGenPool == << <<\"/\">> >>\nGenTables == << {1} >>\n====\n",
 		"Gen_Radix.tla":      "---- MODULE Gen_Radix ----\nGenPool == << <<\"/\">> >>\nGenMaxRoutes == 1\n====\n",
-		"Gen_Lookup.tla":     "---- MODULE Gen_Lookup ----\nGenPool == << <<\"/\">> >>\nGenPaths == << <<\"/\">> >>\nGenMaxTab == 1\nGenExtraTables == {}\nGenFixes == {}\n====\n",
+		"Gen_Lookup.tla":     "---- MODULE Gen_Lookup ----\nGenPool == << <<\"/\">> >>\nGenPaths == << <<\"/\">> >>\nGenMaxTab == 1\nGenEnumN == 1\nGenExtraTables == {}\nGenFixes == {}\n====\n",
 		"trace.ndjson":       "",
 		"obs.ndjson":         "",
 	}
